@@ -177,6 +177,12 @@ def inv3_at(g, q, minlen=3):
 
 
 def inv1_all(g):
+    if g.is_directed():
+        # predecessor side mirrors the successor side
+        for v in g._pred:
+            for u in g._pred[v]:
+                if u not in g._succ or v not in g._succ[u] or g._succ[u][v] is not g._pred[v][u]:
+                    return False
     for u, v, tl in timelines(g):
         if tl is None or not inv.canonical(tl):
             return False
